@@ -1,6 +1,5 @@
 #!/bin/sh
-# tools/commit.sh "<message>": commit everything in /verif except the files a sub-agent is still editing (C18)
+# tools/commit.sh "<message>": commit everything in /verif
 cd /verif || exit 1
-git add -A -- . ':!spec/CincoInclude.tla' ':!spec/IncludeLab.tla' ':!spec/MC_Include.tla' ':!spec/Trace_Include*' \
-    ':!harness/props/c18.py' ':!harness/props/incworld.py' ':!harness/props/loadfail.py' ':!evidence/C18.json'
+git add -A
 git commit -qm "$1" && git log --oneline | head -1
